@@ -193,6 +193,8 @@ pub fn run(seed: u64, count: usize, outdir: &str) -> std::io::Result<i32> {
     let mut samples_out: Vec<String> = vec![];
     let mut ll_vm = Shape::<VmFunction>::new_point_eval();
     let mut ll_jit = Shape::<JitFunction>::new_point_eval();
+    let mut ll_fs_vm = Shape::<VmFunction>::new_float_slice_eval(); let mut ll_gs_vm = Shape::<VmFunction>::new_grad_slice_eval();
+    let mut ll_fs_jit = Shape::<JitFunction>::new_float_slice_eval(); let mut ll_gs_jit = Shape::<JitFunction>::new_grad_slice_eval();
     for ci in 0..count {
         let mut r = rng.fork();
         let cfg = DagCfg { max_ops: 40, max_outputs: 1, max_free_vars: *r.pick(&[0usize, 1, 2, 3, 5, 8, 12, 24]), p_const_operand: 0.2,
@@ -252,6 +254,30 @@ pub fn run(seed: u64, count: usize, outdir: &str) -> std::io::Result<i32> {
                 if fresh != again { bad.push(format!("kind=reused-evaluator-differs backend={} fresh {:?} long-lived {:?}", $name, fresh, again)); }
             }} }
             if catch_unwind(AssertUnwindSafe(|| { reused!(VmFunction, ll_vm, "vm"); reused!(JitFunction, ll_jit, "jit"); })).is_err() { bad.push("kind=panic with a long-lived evaluator".into()); }
+            // ---- the many-point and gradient shape evaluators, long-lived too, with a number of points that changes from case to case
+            {
+                let npts = 1 + (ci * 7) % 19;
+                let xs: Vec<f32> = (0..npts).map(|k| p[0] + k as f32 * 0.125).collect(); let ys: Vec<f32> = (0..npts).map(|k| p[1] - k as f32 * 0.25).collect(); let zs: Vec<f32> = (0..npts).map(|k| p[2] + k as f32 * 0.5).collect();
+                let g = |v: &Vec<f32>, a: usize| -> Vec<Grad> { v.iter().map(|x| Grad::new(*x, (a == 0) as u8 as f32, (a == 1) as u8 as f32, (a == 2) as u8 as f32)).collect() };
+                macro_rules! reused_bulk { ($F:ty, $fe:expr, $ge:expr, $name:expr) => {{
+                    let sh = Shape::<$F>::new(&dag.ctx, root).unwrap();
+                    let (ft, gt) = (sh.float_slice_tape(Default::default()), sh.grad_slice_tape(Default::default()));
+                    let bits = |o: &[f32]| o.iter().map(|v| canon_bits(*v)).collect::<Vec<u32>>();
+                    let gbits = |o: &[Grad]| o.iter().map(|v| [canon_bits(v.v), canon_bits(v.dx), canon_bits(v.dy), canon_bits(v.dz)]).collect::<Vec<[u32; 4]>>();
+                    let fresh_f = { let mut e = Shape::<$F>::new_float_slice_eval(); e.eval_with_vars(&ft, &xs, &ys, &zs, &sv).map(|o| bits(o)).map_err(|e| e.to_string()) };
+                    let again_f = $fe.eval_with_vars(&ft, &xs, &ys, &zs, &sv).map(|o| bits(o)).map_err(|e| e.to_string());
+                    if fresh_f != again_f { bad.push(format!("kind=reused-evaluator-differs backend={} many-point evaluation ({npts} points): fresh {:?} long-lived {:?}", $name, fresh_f.as_ref().map(|v| v.len()), again_f.as_ref().map(|v| v.len()))); }
+                    let (gx, gy, gz) = (g(&xs, 0), g(&ys, 1), g(&zs, 2));
+                    let fresh_g = { let mut e = Shape::<$F>::new_grad_slice_eval(); e.eval_with_vars(&gt, &gx, &gy, &gz, &sv).map(|o| gbits(o)).map_err(|e| e.to_string()) };
+                    let again_g = $ge.eval_with_vars(&gt, &gx, &gy, &gz, &sv).map(|o| gbits(o)).map_err(|e| e.to_string());
+                    if fresh_g != again_g { bad.push(format!("kind=reused-evaluator-differs backend={} gradient evaluation ({npts} points) differs between a fresh and a long-lived evaluator", $name)); }
+                }} }
+                if catch_unwind(AssertUnwindSafe(|| { reused_bulk!(VmFunction, ll_fs_vm, ll_gs_vm, "vm"); reused_bulk!(JitFunction, ll_fs_jit, ll_gs_jit, "jit"); })).is_err() {
+                    bad.push("kind=panic with a long-lived many-point / gradient evaluator".into());
+                    // (an evaluator that panicked may be left in any state)
+                    ll_fs_vm = Shape::<VmFunction>::new_float_slice_eval(); ll_gs_vm = Shape::<VmFunction>::new_grad_slice_eval();
+                    ll_fs_jit = Shape::<JitFunction>::new_float_slice_eval(); ll_gs_jit = Shape::<JitFunction>::new_grad_slice_eval(); }
+            }
             // ---- binding: accepted exactly when every variable of the tape is in the table
             // (the shape whose map iteration order went into the case line: the model runs ShapeVars::check over that order)
             let sh = &shape;
